@@ -14,7 +14,7 @@ RULE = (
     "A fitted object (all discretizer/carver classes, table-first samples) and 3-5 NEW frames described by "
     "value selectors resolved against the fitted state: seen values, values at/next to every boundary "
     "(nextafter), +-1e308, denormals, 0, ints for float columns, unseen categories (strings and numbers, the "
-    "same unseen value may occur in several columns), missing values where none were seen, empty and "
+    "same unseen value may occur in several columns; values of another qualitative feature's vocabulary), missing values where none were seen, empty and "
     "single-row frames, extra/permuted columns. Oracle computed from values_orders: a *cause* exists iff an "
     "unseen category meets a feature without default group or a missing value meets a feature without "
     "missing values at fit; cause => AssertionError naming a feature that has a cause; no cause => success and "
@@ -38,6 +38,7 @@ def strategy(tier):
         st.tuples(st.just("seen"), st.integers(0, 63)),
         st.tuples(st.just("unseen"), st.integers(0, len(UNSEEN) - 1)),
         st.tuples(st.just("missing")),
+        st.tuples(st.just("other"), st.integers(0, 63)),  # a value of another qualitative feature's vocabulary
         st.tuples(st.just("boundary"), st.integers(0, 63), st.sampled_from([-1, 0, 1])),
         st.tuples(st.just("boundary"), st.integers(0, 63), st.sampled_from([-1, 0, 1])),
         st.tuples(st.just("extreme"), st.sampled_from(["huge", "-huge", "denorm", "-denorm", "zero", "below", "above"])),
@@ -61,7 +62,7 @@ def strategy(tier):
     )
 
 
-def resolve(selector, spec, order, train_vals):
+def resolve(selector, spec, order, train_vals, others=()):
     """Raw value for a selector, given the feature spec and fitted order."""
     name = selector[0]
     quantitative = spec["kind"] in ("continuous", "discrete")
@@ -90,11 +91,15 @@ def resolve(selector, spec, order, train_vals):
             }[selector[1]]
         if name == "unseen":
             return 98765.4321 + selector[1]
+        if name == "other":
+            return float(spec["values"][selector[1] % len(spec["values"])])
         raise ValueError(selector)
     if name in ("seen", "int", "boundary"):
         return spec["values"][selector[1] % len(spec["values"])]
     if name == "unseen":
         return UNSEEN[selector[1] % len(UNSEEN)]
+    if name == "other":
+        return others[selector[1] % len(others)] if others else UNSEEN[selector[1] % len(UNSEEN)]
     if name == "extreme":
         return {"huge": "1e308", "zero": 0}.get(selector[1], "UNSEEN_a")
     raise ValueError(selector)
@@ -164,7 +169,8 @@ def check_case(case) -> Outcome:
                 if order is None:  # dropped feature: any training value
                     values.append(sample.X[col].iloc[0])
                 else:
-                    values.append(resolve(sel, spec, order, train_vals))
+                    others = [v for o_col, o_spec in sample.specs.items() if o_col != col and o_spec["kind"] in ("ordinal", "categorical") for v in o_spec["values"]]
+                    values.append(resolve(sel, spec, order, train_vals, others))
             if spec["kind"] in ("continuous", "discrete"):
                 if values and all(isinstance(v, int) for v in values):
                     data[col] = pd.Series(values, dtype="int64", index=new_index)
